@@ -59,7 +59,47 @@ def formats(tier):
 
 
 def shards(tier):
-    return [dict(signed=s, bits=b, frac=f) for s, b, f in formats(tier)]
+    return [dict(signed=s, bits=b, frac=f) for s, b, f in formats(tier)] + \
+        [dict(history=k) for k in range(4)]
+
+
+def run_history(k, acc):
+    """Converter factories called one after another in one process: every
+    ordered pair of formats from a family in which signed (n+1)-bit and
+    unsigned n-bit formats share their upper limit."""
+    from rig import type_casts as tc
+    fam = [(sg, b, f) for sg in (False, True)
+           for b in (7, 8, 9, 10, 16, 17, 32, 33) for f in (0, 4)]
+    pts = [-1e30, -300.5, -16.0, -1.0, -0.03, 0.0, 0.49, 1.0, 15.9, 16.0,
+           255.0, 256.0, 511.9, 70000.7, 1e30]
+    i = -1
+    for A in fam:
+        for B in fam:
+            i += 1
+            if i % 4 != k or A == B:
+                continue
+            acc.evaluations += 1
+            acc.nontrivial += 1
+            try:
+                fa = tc.float_to_fp(*A)
+                fb = tc.float_to_fp(*B)
+                bad = [(F, x, f(x), reference(x, *F))
+                       for F, f in ((A, fa), (B, fb)) for x in pts
+                       if f(x) != reference(x, *F)]
+                ga = tc.fp_to_float(A[2])
+                gb = tc.fp_to_float(B[2])
+                if ga(8) != 8 / float(1 << A[2]) or \
+                        gb(-8) != -8 / float(1 << B[2]):
+                    bad.append(("fp_to_float", A, B))
+            except Exception as e:
+                bad = [repr(e)]
+            if bad:
+                acc.violation(dict(kind="factory_history"),
+                              dict(history=k, A=list(A), B=list(B)),
+                              "after creating float_to_fp%r and then "
+                              "float_to_fp%r: %r" % (A, B, bad[:2]))
+                return
+    acc.sample(dict(history=k, formats=len(fam)))
 
 
 def limits(signed, bits):
@@ -269,6 +309,42 @@ def run_format(signed, bits, frac, acc, floats=None):
                                    shape=list(shape)),
                               dict(fmt, shape=list(shape), array=True),
                               "shape %r: converter gives %r" % (shape, r))
+        # memory layouts: Fortran order, transposed, strided views
+        m2 = (len(fl) // 2) * 2
+        base = np.array(fl[:m2], dtype=np.float64)
+        want2 = refs[:m2]
+        layouts = {
+            "fortran": (np.asfortranarray(base.reshape(2, -1)),
+                        lambda r: [int(v) for v in np.ascontiguousarray(r)
+                                   .reshape(-1)]),
+            "transposed": (base.reshape(-1, 2).T,
+                           lambda r: [int(v) for v in np.ascontiguousarray(
+                               r.T).reshape(-1)]),
+            "strided": (np.repeat(base, 2)[::2],
+                        lambda r: [int(v) for v in r]),
+            "3d_swapped": (base[:(m2 // 4) * 4].reshape(2, 2, -1)
+                           .swapaxes(0, 2),
+                           lambda r: [int(v) for v in np.ascontiguousarray(
+                               r.swapaxes(0, 2)).reshape(-1)]),
+        }
+        for lname, (arr2, flat) in layouts.items():
+            acc.evaluations += 1
+            try:
+                with warnings.catch_warnings():
+                    warnings.simplefilter("ignore")
+                    r = aconv(arr2)
+                got2 = flat(r)
+                ok = (r.shape == arr2.shape and
+                      got2 == want2[:len(got2)])
+            except Exception as e:
+                ok = False
+                got2 = repr(e)
+            if not ok:
+                acc.violation(dict(kind="array_layout", bits=bits,
+                                   layout=lname),
+                              dict(fmt, array=True, layout=lname),
+                              "array converter on a %s array disagrees with "
+                              "the scalar converter" % lname)
         # two conversions with one converter: an earlier result must not
         # change (results are independent arrays)
         half = len(fl) // 2
@@ -317,10 +393,16 @@ def run_format(signed, bits, frac, acc, floats=None):
 
 
 def run_shard(params, tier, acc):
+    if "history" in params:
+        run_history(params["history"], acc)
+        return
     run_format(params["signed"], params["bits"], params["frac"], acc)
 
 
 def replay(case, acc):
+    if "history" in case:
+        run_history(case["history"], acc)
+        return
     run_format(case["signed"], case["bits"], case["frac"], acc)
 
 
